@@ -484,6 +484,54 @@ class PhaseTimes(Monitor):
             self.judge(k, t0, bound, now, "still in it at the end of the run")
 
 
+class BackwashDue(Monitor):
+    """C07, last sentence: an AUTOMATIC backwash (no `wash` request) starts only when at least the configured number of days
+    (the value last accepted on /settings/filtration/backwash/period, default 30) has passed since the last one (the retained
+    /status/filtration/backwash/last, or the completion the controller published itself)"""
+
+    pid = "C07"
+
+    def finish(self, r):
+        import datetime as dt
+
+        period = 30
+        last = None
+        wash_requested = False
+        in_wash = False
+        for (t, kind, data) in r.world.log:
+            if kind == "mqtt":
+                topic = data[0]
+                pay = data[1].decode("utf-8", "replace") if isinstance(data[1], (bytes, bytearray)) else str(data[1])
+                if topic == "/settings/filtration/backwash/period":
+                    try:
+                        v = float(pay)
+                        if v == v and 0 <= v <= 90:
+                            period = int(v)
+                    except ValueError:
+                        pass
+                elif topic == "/status/filtration/backwash/last":
+                    try:
+                        last = dt.datetime.strptime(pay, "%c")
+                    except ValueError:
+                        pass
+                elif topic == "/settings/mode" and pay == "wash":
+                    wash_requested = True
+            elif kind == "publish" and data[0] == "/status/filtration/backwash/last":
+                try:
+                    last = dt.datetime.strptime(str(data[1]), "%c")
+                except ValueError:
+                    pass
+            elif kind == "publish" and data[0] == "/status/filtration/state":
+                if data[1] == "backwash" and not in_wash:
+                    in_wash = True
+                    now = r.world.t0 + dt.timedelta(microseconds=t)
+                    if not wash_requested and last is not None and period > 0 and (now - last) < dt.timedelta(days=period) - dt.timedelta(seconds=60):
+                        r.report("C07", "automatic-backwash-before-due", f"automatic backwash started {(now - last).days} days after the last one ({last:%c}); configured period {period} days")
+                    wash_requested = False
+                elif data[1] not in ("backwash", "rinse"):
+                    in_wash = False
+
+
 class WinterCycle(Monitor):
     """C17 on the pin trace (virtual timestamps): in wintering mode, while the temperature the pump's policy looks at is at or
     below its threshold (or unknown), the pump runs at least once every configured period + one poll (2 min).  Oracle values
@@ -567,7 +615,7 @@ class WinterCycle(Monitor):
             check(k, r.world.now_us)
 
 
-SETTLED_MONITORS = [C01, C01b, C02, C05i, C06a, C07a, C08, C12a, C13a, C15a, C17a, Liveness, Timed, PhaseTimes, WinterCycle]
+SETTLED_MONITORS = [C01, C01b, C02, C05i, C06a, C07a, C08, C12a, C13a, C15a, C17a, Liveness, Timed, PhaseTimes, WinterCycle, BackwashDue]
 
 
 def all_monitors():
